@@ -5,6 +5,7 @@
 package main
 
 import (
+	"math"
 	"bufio"
 	"encoding/binary"
 	"encoding/json"
@@ -21,6 +22,7 @@ import (
 
 	"verif/harness/core"
 	"verif/harness/dec"
+	"verif/harness/ref/preparse"
 )
 
 // threadCPU is the user-mode CPU time of the calling OS thread. Kernel time is left out on
@@ -71,6 +73,14 @@ func liveHeap() uint64 {
 	return s[0].Value.Uint64()
 }
 
+// mappedNow is the memory the Go runtime currently holds (what SetMemoryLimit counts): total
+// mapped minus what has been returned to the operating system.
+func mappedNow() uint64 {
+	s := []metrics.Sample{{Name: "/memory/classes/total:bytes"}, {Name: "/memory/classes/heap/released:bytes"}}
+	metrics.Read(s)
+	return s[0].Value.Uint64() - s[1].Value.Uint64()
+}
+
 func totalAlloc() uint64 {
 	s := []metrics.Sample{{Name: "/gc/heap/allocs:bytes"}}
 	metrics.Read(s)
@@ -102,6 +112,24 @@ func main() {
 		}
 		alloc0 := totalAlloc()
 		base := liveHeap()
+		// Soft memory limit at what the runtime holds now + the C09 budget of this input (512 MiB
+		// + 64 x declared samples, + 96 MiB of slack): the collector then runs early enough to keep the heap
+		// under the limit whenever the live data fits it, so a sampled heap clearly above the
+		// budget means live data above the budget - not garbage waiting for the next cycle.
+		// Decodes that stay far below the limit are paced exactly as without it.
+		limitSet := false
+		if s, found := preparse.Declared(data); !found || s <= 1<<22 {
+			if !found {
+				s = 0
+			}
+			if entry == "codec:RLE" && info != nil {
+				s = uint64(max(0, info.W)) * uint64(max(0, info.H)) * uint64(max(0, info.SPP))
+			}
+			if s <= 1<<22 {
+				debug.SetMemoryLimit(int64(mappedNow()) + 512<<20 + 64*int64(s) + 96<<20)
+				limitSet = true
+			}
+		}
 		var peak atomic.Uint64
 		stop := make(chan struct{})
 		done := make(chan struct{})
@@ -154,6 +182,9 @@ func main() {
 				}
 			}
 		}()
+		if limitSet {
+			debug.SetMemoryLimit(math.MaxInt64)
+		}
 		resp.CPUms = int64((threadCPU() - c0) / time.Millisecond)
 		resp.WallMs = int64(time.Since(t0) / time.Millisecond)
 		if h := liveHeap(); h > base && h-base > peak.Load() {
